@@ -108,6 +108,7 @@ struct spec {
 };
 static struct spec S;
 static const struct ent *CUR;
+static const char *cur_family = "";
 
 static void *obj(int i, size_t n, size_t align) { size_t off = vk_place(&so[i], n, VK_END, align, 0); S.objsize[i] = n; return so[i].rw + off; }
 static void ptr(int i, void *p, int req_if, int is_out) { S.isptr[i] = 1; S.valid[i] = (uint64_t)(uintptr_t)p; S.req_if[i] = req_if; S.is_out[i] = is_out; S.nsv[i] = 0; if (i >= S.n) S.n = i + 1; }
@@ -257,7 +258,27 @@ static uint64_t do_call(void *fn, const char *name, const uint64_t *a, int n, in
 }
 
 /* ================= lattice (C16) ================= */
+static const char *hfams[] = { "base", "sse", "avx", "avx2", "avx512", "sse_ni", "avx512_ni", "sb_sse4", NULL };
+static void lattice_entry_1(const struct ent *e);
 static void lattice_entry(const struct ent *e)
+{
+	if (e->cls != C_HSUBMIT) { lattice_entry_1(e); return; }
+	/* rejections by flags / state are implemented per CPU family in the context layer: bind the manager entry points to
+	 * each family in turn (the pointer, not the code, is set) */
+	char b[96]; void **sl[3]; void *orig[3]; static const char *op[3] = { "init", "submit", "flush" };
+	for (int k = 0; k < 3; k++) { snprintf(b, sizeof b, "_%s_ctx_mgr_%s_dispatched", halg[e->alg], op[k]); sl[k] = vk_sym(b); if (!sl[k]) { lattice_entry_1(e); return; } orig[k] = *sl[k]; }
+	for (int f = 0; hfams[f]; f++) {
+		void *fn[3]; int ok = 1;
+		for (int k = 0; k < 3; k++) { snprintf(b, sizeof b, "_%s_ctx_mgr_%s_%s", halg[e->alg], op[k], hfams[f]); fn[k] = vk_sym(b); if (!fn[k]) ok = 0; }
+		if (!ok) continue;
+		for (int k = 0; k < 3; k++) *sl[k] = fn[k];
+		cur_family = hfams[f];
+		lattice_entry_1(e);
+	}
+	cur_family = "";
+	for (int k = 0; k < 3; k++) *sl[k] = orig[k];
+}
+static void lattice_entry_1(const struct ent *e)
 {
 	build_spec(e);
 	if (e->cls == C_SELFTEST) return;
@@ -288,7 +309,12 @@ static void lattice_entry(const struct ent *e)
 				if (!S.isptr[i]) a[i] = S.is32[i] ? A32(sc[i]) : sc[i];
 				else { int j; for (j = 0; j < np && pidx[j] != i; j++) ; a[i] = (mask & (1u << j)) ? 0 : ((expect == V_BAD && !(via_ctx && i < 3)) ? (uint64_t)(uintptr_t)poison[i] : S.valid[i]); }
 			}
-			if (via_ctx) { uint64_t pa[12]; memcpy(pa, a, sizeof pa); pa[5] = ISAL_HASH_ENTIRE; prep_state(e, pa); }
+			static uint8_t img_mgr[1 << 15], img_ctx[2048];
+			if (via_ctx) {
+				/* an idle mid-stream context: the refusal must leave its hash state alone */
+				uint64_t pa[12]; memcpy(pa, a, sizeof pa); pa[5] = ISAL_HASH_UPDATE; prep_state(e, pa);
+				memcpy(img_mgr, (void *)(uintptr_t)a[0], hmgr[e->alg]); memcpy(img_ctx, (void *)(uintptr_t)a[1], hctx[e->alg]);
+			}
 			o = snprintf(shape, sizeof shape, "null_mask=0x%x", mask);
 			if (dev >= 0) snprintf(shape + o, sizeof shape - o, " arg%d=%llu", dev, (unsigned long long)sc[dev]);
 			if (expect != V_BAD) {
@@ -299,7 +325,7 @@ static void lattice_entry(const struct ent *e)
 			int faulted; uint64_t r = do_call(e->fn, e->name, a, S.n, &faulted);
 			vk_stat("lattice_cases", 1);
 			vk_stat(expect == V_BAD ? "must_fail_cases" : expect == V_OK ? "must_succeed_cases" : "unspecified_cases", 1);
-			vk_distinct("case", vk_hash(shape, strlen(shape), vk_hash(e->name, strlen(e->name), 16)));
+			vk_distinct("case", vk_hash(shape, strlen(shape), vk_hash(e->name, strlen(e->name), 16 + (uint64_t)(uintptr_t)cur_family)));
 			char key[200];
 			if (faulted) {
 				char ad[160], rp[160]; vk_describe_addr(vk_last_fault.addr, ad, sizeof ad); vk_describe_rip(vk_last_fault.rip, rp, sizeof rp);
@@ -309,7 +335,14 @@ static void lattice_entry(const struct ent *e)
 				continue;
 			}
 			int ret = (int)r;
-			if (e->cls == C_MHUPD || e->cls == C_MHFIN || e->cls == C_MHINIT) ret = (int)r;
+			if (via_ctx) {
+				uint8_t *c = (uint8_t *)(uintptr_t)a[1];
+				*(int32_t *)(img_ctx + hoff_error[e->alg]) = *(int32_t *)(c + hoff_error[e->alg]);      /* the error field is the documented channel */
+				if (memcmp(img_mgr, (void *)(uintptr_t)a[0], hmgr[e->alg]) || memcmp(img_ctx, c, hctx[e->alg])) {
+					snprintf(key, sizeof key, "%s[%s]:refused_but_modified", e->name, cur_family);
+					vk_violation("C16", key, NULL, "%s (family %s) returned %d for invalid flags but modified the %s of an idle mid-stream job (%s)", e->name, cur_family, ret, memcmp(img_ctx, c, hctx[e->alg]) ? "context" : "manager", shape);
+				}
+			}
 			if (expect == V_BAD && ret == 0) { snprintf(key, sizeof key, "%s:accepted_invalid", e->name); vk_violation("C16", key, NULL, "%s returned 0 for arguments outside the documented domain (%s)", e->name, shape); }
 			if (expect == V_OK && ret != 0) { snprintf(key, sizeof key, "%s:refused_valid", e->name); vk_violation("C16", key, NULL, "%s returned %d for arguments inside the documented domain (%s)", e->name, ret, shape); }
 			if (expect == V_BAD && ret != 0 && (ret < ISAL_CRYPTO_ERR_NULL_SRC || ret >= ISAL_CRYPTO_ERR_MAX)) { snprintf(key, sizeof key, "%s:undocumented_code", e->name); vk_violation("C16", key, NULL, "%s returned %d, not one of the documented ISAL_CRYPTO_ERR codes (%s)", e->name, ret, shape); }
@@ -433,12 +466,20 @@ enum { L_NOTRUN, L_PASSED, L_FAILED };
 static uint8_t before[NOBJ][4096];
 
 /* one call of entry e with valid arguments; returns ret; *changed = some output object changed */
+static int fips_var;       /* 0 = default arguments; k > 0 = the k-th in-domain alternative value of a scalar argument (flags, lengths, tag length, ...) */
+static int fips_nvariants(const struct ent *e) { int n = 1; build_spec(e); for (int i = 0; i < S.n; i++) for (int k = 0; k < S.nsv[i]; k++) if (S.sv[i][k].validity == V_OK) n++; return n; }
 static int fips_call(const struct ent *e, int *changed, int same_keys, int *faulted)
 {
 	build_spec(e);
 	uint64_t a[12];
 	for (int i = 0; i < S.n; i++) a[i] = S.valid[i];
-	if (same_keys && e->cls == C_XTS) memcpy((void *)(uintptr_t)S.valid[0], (void *)(uintptr_t)S.valid[1], S.objsize[0]);
+	if (fips_var > 0) { int n = 0; for (int i = 0; i < S.n; i++) for (int k = 0; k < S.nsv[i]; k++) if (S.sv[i][k].validity == V_OK && ++n == fips_var) a[i] = S.sv[i][k].v; }
+	if (same_keys && e->cls == C_XTS) {
+		uint8_t *k2 = (uint8_t *)(uintptr_t)S.valid[0], *k1 = (uint8_t *)(uintptr_t)S.valid[1]; size_t n = S.objsize[0];
+		if (same_keys == 1) memcpy(k2, k1, n);
+		else if (same_keys == 2) memcpy(k2, k1, n / 2);              /* keys (or schedules) share a prefix but differ */
+		else memcpy(k2 + n / 2, k1 + n / 2, n - n / 2);              /* share a suffix but differ */
+	}
 	/* state preparation must not go through gated public code: prep_state uses internal symbols */
 	uint32_t st = self_test_status;
 	prep_state(e, a);
@@ -535,6 +576,26 @@ static void fips(void)
 			vk_distinct("histories", vk_hash(hist, strlen(hist), 21));
 		}
 	}
+	/* every in-domain variant of the scalar arguments (flags FIRST/UPDATE/LAST, zero and odd lengths, AAD length 0, tag
+	 * lengths 8/12, windows ...): a gate that is skipped on one parameter path */
+	for (int latch = 0; latch < 3; latch++) for (int o1 = 0; o1 < 3; o1 += 2) for (int e1 = 0; e1 < NE; e1++) {
+		if (item++ % vk_nshards != vk_shard) continue;
+		int nv = fips_nvariants(&E[e1]);
+		for (fips_var = 1; fips_var < nv; fips_var++) {
+			char hist[240]; int changed, faulted;
+			snprintf(hist, sizeof hist, "latch=%s outcome=%d call=%s argument-variant#%d", latch == 0 ? "not_run" : latch == 1 ? "passed" : "failed", o1, E[e1].name, fips_var);
+			set_latch(latch, 0);
+			shim_aes_ret = 0; shim_sha_ret = o1 == 2 ? fail_sha : 0;
+			int ret = fips_call(&E[e1], &changed, 0, &faulted);
+			vk_stat("transitions", 1); vk_stat("states", 1);
+			if (faulted) { char key[128]; snprintf(key, sizeof key, "%s:fault", E[e1].name); vk_violation("C13", key, NULL, "%s faulted in FIPS build [%s]", E[e1].name, hist); continue; }
+			int entered = shim_entered_aes > shim_entered_sha ? shim_entered_aes : shim_entered_sha;
+			int runs = (E[e1].approved && latch == L_NOTRUN);
+			fips_check(&E[e1], latch, ret, changed, runs ? entered : (latch == L_NOTRUN ? 1 : entered), o1 != 0, hist);
+			vk_distinct("histories", vk_hash(hist, strlen(hist), 22));
+		}
+		fips_var = 0;
+	}
 	/* XTS key equality: every entry, every latch state */
 	if (vk_shard == 0) for (int latch = 0; latch < 3; latch++) for (int e1 = 0; e1 < NE; e1++) if (E[e1].cls == C_XTS) {
 		int changed, faulted; char hist[160];
@@ -543,6 +604,13 @@ static void fips(void)
 		snprintf(hist, sizeof hist, "latch=%d key1==key2 %s", latch, E[e1].name);
 		vk_stat("transitions", 1);
 		if (faulted || ret == 0 || changed) { char key[128]; snprintf(key, sizeof key, "%s:same_keys_accepted", E[e1].name); vk_violation("C13", key, NULL, "%s accepted a data key identical to the tweak key (ret %d%s) [%s]", E[e1].name, ret, changed ? ", output written" : "", hist); }
+		/* keys that merely share a prefix / suffix are different keys: in the passed state the call must succeed */
+		if (latch == L_PASSED) for (int part = 2; part <= 3; part++) {
+			set_latch(L_PASSED, 0); shim_aes_ret = shim_sha_ret = 0;
+			ret = fips_call(&E[e1], &changed, part, &faulted);
+			vk_stat("transitions", 1);
+			if (faulted || ret != 0) { char key[128]; snprintf(key, sizeof key, "%s:different_keys_refused", E[e1].name); vk_violation("C13", key, NULL, "%s returned %d for two different keys that share their %s half", E[e1].name, ret, part == 2 ? "first" : "second"); }
+		}
 	}
 	self_test_status = 2;
 }
